@@ -1,8 +1,10 @@
 """C20 - style settings resolve instance -> nearest class -> default, and unset restores."""
 from __future__ import annotations
 
+import io
 import re
 
+from simkit import images
 from simkit.core import Violation, check
 from simkit.vterm import Profile
 from simkit.world import World
@@ -20,7 +22,8 @@ LEVEL_TEXT = ("Class attributes mutated by a history are process-global state, s
               "operations (valid and invalid) for every inheritable setting; after every "
               "operation EVERY class and instance is read back (forced_support, jpeg_quality, "
               "read_from_file, native_anim_max_bytes) and compared with the model, and renders of "
-              "a two-line image with and without a per-call method override reveal through their "
+              "a two-line image (still, or a two-frame animation drawn frame by frame) with and "
+              "without a per-call method override reveal through their "
               "framing (commands per line vs one command) which render method was really used. "
               "No clock, fault or schedule exists in this property; the technique contributes the "
               "program-and-history generator, the reference model, world isolation and minimised "
@@ -44,7 +47,7 @@ PROBES = ["unset_below_non_default_ancestor", "set_on_sibling", "invalid_value_r
           "instance_write_to_class_only_setting_rejected", "per_call_method_override",
           "instance_override_then_unset", "native_anim_max_bytes_shared",
           "render_reveals_lines", "render_reveals_whole", "render_reveals_jpeg",
-          "render_reveals_png"]
+          "render_reveals_png", "animated_draw_reveals_method"]
 COMPONENTS = {
     "real": ["BaseImage.set_render_method (class and instance forms)", "ImageMeta.forced_support",
              "ITerm2ImageMeta + ClassInstanceProperty / ClassProperty descriptors",
@@ -90,6 +93,10 @@ def run(ch, ctx, fault=None):
         from term_image import image as ti_image
         from term_image.exceptions import StyleError
         pil = Image.new("RGB", (4, 4), (10, 20, 30))
+        # a two-frame animated source: an animated draw() renders frame by frame through the
+        # image iterator, a different path to the same render-method decision
+        pil_anim = Image.open(io.BytesIO(images.anim_bytes(2, 4, 4)))
+        anim_objs = []     # kept alive: identity must not be recycled
         roots = []
         for fam, cls in (("kitty", ti_image.KittyImage), ("iterm2", ti_image.ITerm2Image),
                          ("block", ti_image.BlockImage)):
@@ -110,11 +117,14 @@ def run(ch, ctx, fault=None):
             nodes.append(Node(sub, parent, parent.family, name))
         for n in nodes:
             for j in range(ch.int("n_inst", 0, 2)):
+                anim = ch.bool("anim_src", 0.3)
                 try:
-                    obj = n.cls(pil, width=3, height=2)
+                    obj = n.cls(pil_anim if anim else pil, width=3, height=2)
                 except Exception as e:
                     raise Violation("instance_construction_failed",
                                     {"class": n.name, "exc": repr(e)}, "init")
+                if anim:
+                    anim_objs.append(obj)
                 n.instances.append((obj, {}))
         ctx.op("tree: " + ", ".join("%s(%d inst)" % (n.name, len(n.instances)) for n in nodes))
         namb = [NAMB_DEFAULT]
@@ -166,12 +176,16 @@ def run(ch, ctx, fault=None):
             if n.family == "block":
                 return
             eff = override.lower() if override else inst_effective(n, own, "method")
+            animated = any(o is obj for o in anim_objs)
             try:
                 if via_draw:
                     # per-call override as a draw() argument (any letter case is documented
                     # as accepted); the bytes go to the simulated stdout
                     n0 = len(w.out.sink)
                     kw = {"method": override} if override else {}
+                    if animated:
+                        kw["repeat"] = 1
+                        ctx.probe("animated_draw_reveals_method")
                     obj.draw(pad_height=1, check_size=False, **kw)
                     w.out.drain()
                     render = bytes(w.out.sink[n0:]).decode()
@@ -181,10 +195,12 @@ def run(ch, ctx, fault=None):
                 raise Violation("render_raised", {"exc": repr(e), "class": n.name}, "render")
             cmds = count_commands(render, n.family)
             want = 2 if eff == "lines" else 1
+            if animated and via_draw:
+                want *= 2       # two frames, each rendered with the effective method
             ctx.probe("render_reveals_lines" if want == 2 else "render_reveals_whole")
             if override:
                 ctx.probe("per_call_method_override")
-            if n.family == "iterm2" and not via_draw:
+            if n.family == "iterm2" and not via_draw and not animated:
                 import base64
                 m_ = re.search(r"\x1b\]1337;File=[^:]*:([A-Za-z0-9+/=]+)", render)
                 if m_:
@@ -248,12 +264,13 @@ def run(ch, ctx, fault=None):
                     continue
                 idx = ch.int("inst", 0, len(n.instances) - 1)
                 obj, own = n.instances[idx]
-                val = ch.pick("mval", ("lines", "whole", None, "anim", "bogus"))
+                val = ch.pick("mval", ("lines", "whole", None, "anim", "bogus", "LINES", "Whole",
+                                       "ANIM", "Lines"))
                 desc = "%s#%d.set_render_method(%r)" % (n.name, idx, val)
                 valid_set = {"kitty": {"lines", "whole"}, "iterm2": {"lines", "whole", "anim"},
                              "block": set()}[n.family]
                 ok = expect(lambda: obj.set_render_method(val), ("ValueError", "TypeError"), desc)
-                should = val is None or val in valid_set
+                should = val is None or val.lower() in valid_set
                 check(ok == should, "set_render_method_acceptance", {"op": desc, "accepted": ok},
                       "inst_method")
                 if should:
@@ -262,7 +279,7 @@ def run(ch, ctx, fault=None):
                             ctx.probe("instance_override_then_unset")
                         own.pop("method", None)
                     else:
-                        own["method"] = val
+                        own["method"] = val.lower()
             elif op == "cls_forced":
                 val = ch.pick("fval", (True, False, 1, None))
                 desc = "%s.forced_support = %r" % (n.name, val)
@@ -368,7 +385,10 @@ def run(ch, ctx, fault=None):
                     who = "%s#%d" % (n.name, idx)
                 else:
                     try:
-                        obj, own = n.cls(pil, width=3, height=2), {}
+                        anim = ch.bool("anim_src", 0.3)
+                        obj, own = n.cls(pil_anim if anim else pil, width=3, height=2), {}
+                        if anim:
+                            anim_objs.append(obj)
                     except StyleError as e:
                         raise Violation("instance_construction_failed",
                                         {"class": n.name, "exc": repr(e)}, "render")
